@@ -53,11 +53,34 @@ _ROLE_BY_QUALNAME = (
 )
 
 
-def role_of(target):
+def role_of(target, args=()):
   qn = getattr(target, '__qualname__', None) or getattr(getattr(target, '__func__', None), '__qualname__', '') or ''
   for pat, role in _ROLE_BY_QUALNAME:
     if qn.endswith(pat):
       return role
+  # the function was renamed or moved: tell the role from what the thread is given to work on
+  # (internal names may change in a refactoring; what the thread serves does not)
+  try:
+    owner = getattr(target, '__self__', None)
+    if owner is not None:
+      if hasattr(owner, 'fifo_fabric_queue') and hasattr(owner, 'lifo_fabric_queue'):
+        if any(a is owner.lifo_fabric_queue for a in args):
+          return 'fabric.lifo'
+        if any(a is owner.fifo_fabric_queue for a in args):
+          return 'fabric.fifo'
+      if hasattr(owner, 'post_fifo') and hasattr(owner, 'next_rtc') and hasattr(owner, 'locking_deque'):
+        return 'consumer'
+    if args and hasattr(args[0], '_queue') and hasattr(args[0], '_print') and owner is None:
+      return 'writer'
+    for cell in (getattr(target, '__closure__', None) or ()):
+      try:
+        v = cell.cell_contents
+      except ValueError:
+        continue
+      if hasattr(v, 'post_fifo') and hasattr(v, 'next_rtc') and hasattr(v, 'posted_events_queue'):
+        return 'timer'      # a closure over an active object that runs in its own thread: a timed source
+  except Exception:
+    pass
   return 'thread'
 
 
@@ -72,7 +95,7 @@ class SimThread(object):
     self.daemon = bool(daemon)
     self._ctl = None
     self._sim = current_sim()
-    self.role = role_of(target) if target is not None else 'thread'
+    self.role = role_of(target, self._args) if target is not None else 'thread'
     self.ident = None
 
   def run(self):
@@ -542,8 +565,22 @@ class SimTimeModule(types.ModuleType):
     c.sim.sleep(seconds)
 
   def time(self):
+    # the wall clock: virtual time plus the steps an operator or NTP made to it (sim.wall_steps:
+    # [(virtual instant in us, step in us)]); sleep() and monotonic() never see those steps
     s = current_sim()
-    return EPOCH + (s.now() if s is not None else 0.0)
+    if s is None:
+      return EPOCH
+    off = 0
+    steps = getattr(s, 'wall_steps', None)
+    if steps:
+      now = s.now_us
+      for at_us, d_us in steps:
+        if at_us <= now:
+          off += d_us
+      if off and not getattr(s, '_wall_step_seen', False):
+        s._wall_step_seen = True
+        s.fault('wall_clock_step_observed')
+    return EPOCH + s.now() + off / 1e6
 
   def monotonic(self):
     s = current_sim()
